@@ -349,12 +349,10 @@ def _run_prepare(desc):
         stages = [("training", a), ("test", b)]
         un = [int(x) for x in np.unique(a.plate_ids[~a.observation_mask])]
         if un:
-            rv = common.impl_call(reveal_plates, a, un[:1])     # a plate with a NaN / only zeros is refused by reveal_plates: no such stage then
+            rv = common.impl_call(reveal_plates, a, un[:1])      # refuses a plate whose wells are all 0 / hold a NaN (C12)
             if isinstance(rv, ImplError):
                 feats.append("reveal_refused")
             else:
-            rv = common.impl_call(reveal_plates, a, un[:1])      # refuses a plate whose wells are all 0 / hold a NaN (C12)
-            if not isinstance(rv, ImplError):
                 stages.append(("training after reveal", rv))
                 feats.append("reveal_after_prepare")
         pred = None
